@@ -175,6 +175,12 @@ def handle (S : Session) (toks : List String) : Session × String :=
     match parseDump n a, parseDump n b with
     | some a, some b => (S, s!"{isSubgraph a b} {subgraphSpec a b}")
     | _, _ => bad
+  | "DEPTHS" :: k :: es => match k.toNat?, es.mapM (fun (t : String) => match t.splitOn ">" with
+        | [u, v] => (do let u ← u.toNat?; let v ← v.toNat?; pure (u, v) : Option (Nat × Nat))
+        | _ => none) with
+    | some k, some es =>
+      (S, String.intercalate " " ((List.range k).map fun i => toString (longestTo es.eraseDups k i)))
+    | _, _ => bad
   | "ADOPT" :: rest => match parseDump n rest with
     | some d => ({ S with diag := d.toDiag }, "OK")
     | none => bad
